@@ -1,5 +1,7 @@
 #!/usr/bin/env python3
 # assemble /verif/seeded/<id>-<X>/ from the sub-agent deliverables and the confirmation / detection logs
+# (one-off tool of the build session: its inputs under /tmp/mut/out and .work/ were scratch files and are gone;
+#  seeded/ is the result and is what is kept)
 import json, os, re, shutil
 V = '/verif'
 conf = {}
